@@ -1104,6 +1104,58 @@ func c12Evidence(c *core.Ctx, x *c12ctx, lives []sessOutcome) {
 			}
 			add("field-one-octet/"+nm, func(d *document.DocumentEx) { *fields(d)[nm] = []byte{0x00} })
 		}
+		// ArrangementOps of Hostile.tla: a well-formed DG14 whose infos, keys and key identifiers do not fit together
+		for _, arr := range []string{"ca-info-keyid/key-without-keyid", "ca-info-without-keyid/key-with-keyid", "ca-info-keyid/other-key-keyid", "ca-info-without-key",
+			"key-without-info", "two-keys-without-info", "dh-key", "pace-info-without-parameter-id", "no-infos"} {
+			a := arr
+			add("dg14-arrangement/"+a, func(d *document.DocumentEx) {
+				counts := map[string]int{"chipAuth": 1, "chipAuthPublicKey": 1, "pace": 1, "activeAuth": 1}
+				switch a {
+				case "ca-info-without-key":
+					counts["chipAuthPublicKey"] = 0
+				case "key-without-info":
+					counts["chipAuth"] = 0
+				case "two-keys-without-info":
+					counts["chipAuth"], counts["chipAuthPublicKey"] = 0, 2
+				case "no-infos":
+					counts = map[string]int{}
+				}
+				spec, err := lds.ShapeSecInfos("DG14", counts, a == "two-keys-without-info", rand.New(rand.NewSource(int64(len(a)))))
+				if err != nil {
+					return
+				}
+				five, six := int64(5), int64(6)
+				for i := range spec.SecurityInfos.Infos {
+					x := &spec.SecurityInfos.Infos[i]
+					switch x.Type {
+					case "chipAuth":
+						x.OID = "0.4.0.127.0.7.2.2.3.2.2"
+						if strings.HasPrefix(a, "ca-info-keyid") {
+							x.KeyID = &five
+						}
+					case "chipAuthPublicKey":
+						x.OID = "0.4.0.127.0.7.2.2.1.2"
+						if a == "dh-key" {
+							x.OID = "0.4.0.127.0.7.2.2.1.1"
+						}
+						if a == "ca-info-without-keyid/key-with-keyid" || a == "ca-info-keyid/other-key-keyid" {
+							x.KeyID = &six
+						}
+					case "pace":
+						if a == "pace-info-without-parameter-id" {
+							x.ParameterID = nil
+						}
+					}
+				}
+				raw, err := lds.Encode(spec, lds.EncodeOpts{})
+				if err != nil {
+					return
+				}
+				if dg14, err := document.NewDG14(raw); err == nil && dg14 != nil {
+					d.Document.Mf.Lds1.Dg14 = dg14
+				}
+			})
+		}
 		add("oid-empty/aa", func(d *document.DocumentEx) {
 			if r := d.Session.ActiveAuthResult; r != nil && r.Evidence != nil {
 				r.Evidence.Algorithm = nil
